@@ -104,6 +104,9 @@ class MatrixGrader(FormulaGrader):
         # Set default_comparer as an instance property if entry_partial keys
         # are provided
         unvalidated_config = config if config is not None else kwargs
+        if not isinstance(unvalidated_config, dict):
+            # Leave it to the schema validation to report the problem
+            unvalidated_config = {}
         entry_comparer_config = {key: unvalidated_config[key]
                                  for key in ('entry_partial_credit', 'entry_partial_msg')
                                  if key in unvalidated_config}
